@@ -37,6 +37,14 @@ var configs = map[string]propCfg{
 		Thorough:   tierCfg{BudgetS: 900, Chunk: 150, MaxRuns: 5000000},
 		Assume:     assumeAll, Real: realAll, Stub: stubAll,
 	},
+	"C03": {
+		Level:      "exploration",
+		Rule:       "Seeded histories of 10-60 create/update/delete (successful and failing) over prefix-related keys (a, a/b, a-b, ab, keys outside the prefix) with values including the reserved marker, 8/9-byte index look-alikes and bytes >= 0x80; Get/List/Count at every kind of revision (0, any from the first on, last header, header-k) with bounds on/between/outside keys and limits 0..n+1; every read is asked again after further writes and (40%) a compaction; classes: sequential, concurrent readers+writers under seeded schedules, +injected read errors; engines memkv/Badger/TiKV-mock; limit-as-hint freedom.",
+		NonTrivial: "at least one read at an explicit historical revision <= the committed revision was compared with the model.",
+		Quick:      tierCfg{BudgetS: 40, Chunk: 100, MaxRuns: 200000},
+		Thorough:   tierCfg{BudgetS: 900, Chunk: 100, MaxRuns: 5000000},
+		Assume:     assumeAll, Real: realAll, Stub: stubAll,
+	},
 }
 
 // expectedProbes lists the reach probes whose absence is reported as a coverage gap.
@@ -44,4 +52,5 @@ var expectedProbes = map[string][]string{
 	"C01": {"overlapping-writes-on-one-key", "create-over-tombstone", "engine-condition-failed", "engine-txn-conflict", "delete-refused-newrev<=modrev", "drift-back"},
 	"C02": {"concurrent-allocations"},
 	"C04": {"later-allocated-write-finished-first", "drift-back"},
+	"C03": {"read-at-historical-revision", "limit-cut-result", "compaction-before-reread"},
 }
